@@ -15,6 +15,9 @@ A failed certificate raises `OracleError` (infrastructure failure, never a verdi
 On top of it:
   price_system_exists(...)  -- definition: is there a (stable) price system for the allocation W?
   mip_model_feasible(...)   -- is the MIP that `priceable` builds feasible once the selection x is fixed?
+  minimise(nvars, ineqs, eqs, obj) -- certified exact optimum (primal point + dual certificate verified by `check_optimal`)
+  relaxed_optimum(...)      -- the optimal beta of a relaxation of stable priceability (definition / MIP as built), for one allocation
+  relaxed_optimum_searched(...) -- the same minimised over all allocations (searched mode)
 """
 from __future__ import annotations
 
@@ -309,3 +312,315 @@ def mip_model_feasible(names, cost, budget, ballots, W, stable, exhaustive, sear
                 return False
     ok, _ = feasible(len(var), ineqs, eqs)
     return ok
+
+
+# ----------------------------------------------------------------------------------------------
+# certified exact optimisation (two-phase simplex, Bland's rule) — used for the relaxations of stable priceability
+
+
+def check_optimal(nvars, ineqs, eqs, obj, x, y):
+    """x is feasible, y is dual feasible (y <= 0 on the inequality rows, y.A <= obj componentwise) and obj.x = y.r:
+    by weak duality (obj.x' >= (y.A).x' >= y.r for every feasible x') x is a minimiser"""
+    if not check_point(nvars, ineqs, eqs, x):
+        return False
+    rows = list(ineqs) + list(eqs)
+    if len(y) != len(rows) or any(y[i] > 0 for i in range(len(ineqs))):
+        return False
+    comb = [F(0)] * nvars
+    rhs = F(0)
+    for yi, (a, r) in zip(y, rows):
+        if yi == 0:
+            continue
+        for j, c in a.items():
+            comb[j] += yi * c
+        rhs += yi * r
+    if any(comb[j] > obj.get(j, F(0)) for j in range(nvars)):
+        return False
+    return rhs == sum((c * x[j] for j, c in obj.items()), F(0))
+
+
+def minimise(nvars, ineqs, eqs, obj):
+    """min obj.x over { x >= 0, a.x <= r (ineqs), a.x = r (eqs) }, everything exact.
+       -> ("infeasible", None, None)  (Farkas certificate verified by `feasible`)
+          ("unbounded", None, x)      (x feasible; an improving ray was found and verified)
+          ("optimal", value, x)       (primal/dual pair verified by `check_optimal`)"""
+    ineqs = [({j: F(c) for j, c in a.items() if c != 0}, F(r)) for a, r in ineqs]
+    eqs = [({j: F(c) for j, c in a.items() if c != 0}, F(r)) for a, r in eqs]
+    obj = {j: F(c) for j, c in obj.items() if c != 0}
+    m1, m2 = len(ineqs), len(eqs)
+    m = m1 + m2
+    need_art = [i for i in range(m) if i >= m1 or ineqs[i][1] < 0]
+    art_col = {i: nvars + m1 + k for k, i in enumerate(need_art)}
+    ncols = nvars + m1 + len(need_art)
+    first_art = nvars + m1
+    T, sign, basis = [], [], []
+    for i, (a, r) in enumerate(ineqs + eqs):
+        s = F(-1) if r < 0 else F(1)
+        row = [F(0)] * (ncols + 1)
+        for j, c in a.items():
+            row[j] = s * c
+        if i < m1:
+            row[nvars + i] = s
+        if i in art_col:
+            row[art_col[i]] = F(1)
+            basis.append(art_col[i])
+        else:
+            basis.append(nvars + i)
+        row[ncols] = s * r
+        T.append(row)
+        sign.append(s)
+
+    def pivot(leave, enter, z):
+        piv = T[leave][enter]
+        rowl = T[leave] = [v / piv if v else v for v in T[leave]]
+        nz = [j for j, w in enumerate(rowl) if w]
+        for k in range(m):
+            if k != leave:
+                f = T[k][enter]
+                if f:
+                    rk = T[k]
+                    for j in nz:
+                        rk[j] -= f * rowl[j]
+        f = z[enter]
+        if f:
+            for j in nz:
+                if j < ncols:
+                    z[j] -= f * rowl[j]
+        basis[leave] = enter
+
+    def run(z, allowed):
+        for _ in range(50000):
+            enter = next((j for j in range(allowed) if z[j] < 0), None)
+            if enter is None:
+                return None
+            best, leave = None, None
+            for k in range(m):
+                if T[k][enter] > 0:
+                    ratio = T[k][ncols] / T[k][enter]
+                    if best is None or ratio < best or (ratio == best and basis[k] < basis[leave]):
+                        best, leave = ratio, k
+            if leave is None:
+                return enter  # unbounded along this column
+            pivot(leave, enter, z)
+        raise OracleError("simplex did not terminate")
+
+    # phase 1
+    z = [(F(1) if j >= first_art else F(0)) - sum((T[k][j] for k in need_art), F(0)) for j in range(ncols)]
+    if run(z, ncols) is not None:
+        raise OracleError("phase-1 problem unbounded (cannot happen)")
+    if sum((T[k][ncols] for k in range(m) if basis[k] >= first_art), F(0)) != 0:
+        ok, _ = feasible(nvars, ineqs, eqs)  # certified
+        if ok:
+            raise OracleError("phase 1 and the feasibility oracle disagree")
+        return "infeasible", None, None
+    # drive the artificial variables out of the basis (their level is 0); a row without any other entry is redundant
+    for k in range(m):
+        if basis[k] >= first_art:
+            j = next((j for j in range(first_art) if T[k][j] != 0), None)
+            if j is not None:
+                pivot(k, j, z)
+    # phase 2: artificial columns stay in the tableau (they carry the duals) but may not enter
+    cvec = [obj.get(j, F(0)) if j < nvars else F(0) for j in range(ncols)]
+    z = [cvec[j] - sum((cvec[basis[k]] * T[k][j] for k in range(m) if cvec[basis[k]]), F(0)) for j in range(ncols)]
+    ray = run(z, first_art)
+    x = [F(0)] * nvars
+    for k in range(m):
+        if basis[k] < nvars:
+            x[basis[k]] = T[k][ncols]
+    if ray is not None:
+        d = [F(0)] * nvars
+        if ray < nvars:
+            d[ray] = F(1)
+        for k in range(m):
+            if basis[k] < nvars:
+                d[basis[k]] = -T[k][ray]
+        okray = all(v >= 0 for v in d) and all(sum((c * d[j] for j, c in a.items()), F(0)) <= 0 for a, _ in ineqs) \
+            and all(sum((c * d[j] for j, c in a.items()), F(0)) == 0 for a, _ in eqs) \
+            and sum((c * d[j] for j, c in obj.items()), F(0)) < 0
+        if not (okray and check_point(nvars, ineqs, eqs, x)):
+            raise OracleError("unboundedness certificate does not verify")
+        return "unbounded", None, x
+    pi = [(-z[art_col[i]]) if i in art_col else (-z[nvars + i] / sign[i]) for i in range(m)]
+    y = [pi[i] * sign[i] for i in range(m)]
+    if not check_optimal(nvars, ineqs, eqs, obj, x, y):
+        raise OracleError("optimality certificate does not verify")
+    return "optimal", sum((c * x[j] for j, c in obj.items()), F(0)), x
+
+
+# ----------------------------------------------------------------------------------------------
+# C12: the relaxations of stable priceability (pabutools/analysis/priceability_relaxation.py)
+
+RELAX_KINDS = ("mul", "add", "vec", "vecpos", "off")
+OFFSET_FRACTION = F(1, 40)  # MinAddOffset.BUDGET_FRACTION = 0.025
+
+
+class _LP:
+    """rows over named variables with lower bounds: value(v) = x[index] + lb(v), x >= 0"""
+
+    def __init__(self):
+        self.idx, self.lb = {}, {}
+        self.ineqs, self.eqs = [], []
+        self.dead = False  # a variable-free row that is false
+
+    def var(self, name, lb=F(0)):
+        if name not in self.idx:
+            self.idx[name] = len(self.idx)
+            self.lb[name] = F(lb)
+        return name
+
+    def _row(self, coefs, rhs):
+        row, rhs = {}, F(rhs)
+        for v, c in coefs.items():
+            c = F(c)
+            if c == 0:
+                continue
+            row[self.idx[v]] = row.get(self.idx[v], F(0)) + c
+            rhs -= c * self.lb[v]
+        return {j: c for j, c in row.items() if c != 0}, rhs
+
+    def le(self, coefs, rhs):  # sum coefs <= rhs
+        row, r = self._row(coefs, rhs)
+        if row:
+            self.ineqs.append((row, r))
+        elif not 0 <= r:
+            self.dead = True
+
+    def eq(self, coefs, rhs):
+        row, r = self._row(coefs, rhs)
+        if row:
+            self.eqs.append((row, r))
+        elif r != 0:
+            self.dead = True
+
+    def solve(self, objective):
+        """-> (status, value, {name: value})"""
+        if self.dead:
+            return "infeasible", None, None
+        obj, const = self._row(objective, 0)
+        st, val, x = minimise(len(self.idx), self.ineqs, self.eqs, obj)
+        if st == "infeasible":
+            return st, None, None
+        vals = {v: x[j] + self.lb[v] for v, j in self.idx.items()}
+        return st, (None if val is None else val - const), vals
+
+
+def relaxed_optimum(names, cost, budget, ballots, W, kind, exhaustive, searched=False, faithful=False):
+    """The optimum of the relaxation `kind` for the allocation W:
+         minimise the relaxation's objective over (voter budget b, payments p, stability maxima m, beta …) subject to
+         (C0a/C0b) W feasible (and exhaustive), (C1)–(C4) as in `price_system_exists`, m_i >= every payment of i and
+         m_i >= b - spent_i, and the RELAXED stability condition for the unselected projects c:
+               sum_{i approves c} m_i <= relaxed_cost(c),
+         relaxed_cost(c) = cost(c)*beta (mul) | cost(c)+beta (add) | cost(c)+beta_c (vec, vecpos) | cost(c)+beta+beta_c (off),
+         with the variable domains the relaxation class declares in `add_beta`:
+               mul: beta >= 0;  add: beta >= -INF;  vec: beta_c = 0 for selected c, |beta_c| <= budget;  vecpos: beta_c >= 0;
+               off: beta >= -INF, beta_c >= 0, sum_c beta_c <= budget/40           (INF = 10*budget)
+         objective: beta (mul, add, off) | sum_c beta_c (vec, vecpos).
+       `searched`: the guard b*n >= budget of the searched mode when exhaustiveness is not required.
+       `faithful=True`: instead the constraint system `priceable(..., stable=True, relaxation=R)` hands to the solver with
+       x fixed to the indicator of W (big-M terms on the selected projects, (C3) as two inequalities, the bounds tying beta_c
+       to x_c) — transcribed from priceability.py / priceability_relaxation.py like `mip_model_feasible`.
+       -> (status, value, witness) with witness = {"b":…, "pf": [dict per voter], "beta": scalar|None, "betav": {name: value}}"""
+    assert kind in RELAX_KINDS
+    Wset = set(W)
+    W = [c for c in names if c in Wset]
+    NW = [c for c in names if c not in Wset]
+    n = len(ballots)
+    INF = budget * 10
+    x = {c: (1 if c in Wset else 0) for c in names}
+    total = sum((cost[c] for c in W), F(0))
+    if not total <= budget:
+        return "infeasible", None, None
+    if exhaustive:
+        if faithful:
+            if any(not total + cost[c] + x[c] * INF >= budget + 1 for c in names):
+                return "infeasible", None, None
+        elif not is_exhaustive_alloc(names, cost, budget, W):
+            return "infeasible", None, None
+    lp = _LP()
+    lp.var("b")
+    P = {}
+    for i, bal in enumerate(ballots):
+        for c in W:
+            if c in bal:  # otherwise the payment is 0 by (C1) / (C4)
+                P[(i, c)] = lp.var(("p", i, c))
+    M = [lp.var(("m", i)) for i in range(n)]
+    if (not exhaustive) and searched:
+        lp.le({"b": -n}, -budget)
+    for i in range(n):  # (C2)
+        row = {P[(i, c)]: 1 for c in W if (i, c) in P}
+        row["b"] = -1
+        lp.le(row, 0)
+    for c in names:  # (C3) / (C4)
+        row = {P[(i, c)]: 1 for i in range(n) if (i, c) in P}
+        if faithful:
+            lp.le(dict(row), cost[c])
+            lp.le({v: -1 for v in row}, -(cost[c] + (x[c] - 1) * INF))
+            if x[c] == 1 and not cost[c] <= INF:
+                for v in row:
+                    lp.le({v: 1}, INF)
+        elif c in Wset:
+            lp.eq(row, cost[c])
+    for i in range(n):  # m_i
+        for c in W:
+            if (i, c) in P:
+                lp.le({P[(i, c)]: 1, M[i]: -1}, 0)
+        row = {P[(i, c)]: -1 for c in W if (i, c) in P}
+        row["b"] = 1
+        row[M[i]] = -1
+        lp.le(row, 0)
+    # the relaxation's variables
+    beta = None
+    BV = {}
+    if kind == "mul":
+        beta = lp.var("beta")
+    elif kind in ("add", "off"):
+        beta = lp.var("beta", lb=-INF)
+    if kind == "vec":
+        for c in names:
+            BV[c] = lp.var(("beta", c), lb=-INF)
+            lp.le({BV[c]: 1}, (1 - x[c]) * budget)
+            lp.le({BV[c]: -1}, -((x[c] - 1) * budget))
+    elif kind in ("vecpos", "off"):
+        for c in names:
+            BV[c] = lp.var(("beta", c))
+        if kind == "off":
+            lp.le({BV[c]: 1 for c in names}, OFFSET_FRACTION * budget)
+    # relaxed stability
+    for c in (names if faithful else NW):
+        row = {}
+        for i, bal in enumerate(ballots):
+            if c in bal:
+                row[M[i]] = 1
+        rhs = x[c] * INF if faithful else F(0)
+        if kind == "mul":
+            row[beta] = row.get(beta, 0) - cost[c]
+        else:
+            rhs += cost[c]
+            if beta is not None:
+                row[beta] = -1
+            if c in BV:
+                row[BV[c]] = -1
+        lp.le(row, rhs)
+    objective = {beta: 1} if kind in ("mul", "add", "off") else {BV[c]: 1 for c in names}
+    st, val, vals = lp.solve(objective)
+    if st != "optimal":
+        return st, None, None
+    pf = [{c: (vals[P[(i, c)]] if (i, c) in P else F(0)) for c in names} for i in range(n)]
+    wit = {"b": vals["b"], "pf": pf, "beta": (vals[beta] if beta is not None else None),
+           "betav": {c: vals[BV[c]] for c in BV}, "m": [vals[v] for v in M]}
+    return st, val, wit
+
+
+def relaxed_optimum_searched(names, cost, budget, ballots, kind, exhaustive, faithful=False):
+    """the searched mode: the minimum over all allocations (the MIP chooses x as well) -> (value|None, [(W, value)])"""
+    import itertools
+
+    per = []
+    for k in range(len(names) + 1):
+        for W in itertools.combinations(names, k):
+            st, val, _ = relaxed_optimum(names, cost, budget, ballots, list(W), kind, exhaustive, searched=True, faithful=faithful)
+            if st == "optimal":
+                per.append((sorted(W), val))
+            elif st == "unbounded":
+                raise OracleError("relaxed optimum unbounded")
+    return (min(v for _, v in per) if per else None), per
